@@ -1339,10 +1339,11 @@ func staticMisuse(f []string) bool {
 // ---- driver of the run ----------------------------------------------------------------------------
 
 type batch struct {
-	r     *hx.Run
-	n     int
-	total int
-	open  bool
+	r        *hx.Run
+	n        int
+	total    int
+	open     bool
+	timeouts int
 }
 
 func (b *batch) emit(op, mut string) {
@@ -1351,9 +1352,18 @@ func (b *batch) emit(op, mut string) {
 		b.r.Case(sub)
 		b.open, b.n = true, 0
 	}
+	if b.timeouts >= 6 && mut != "corpus" && mut != "replay" {
+		// the run already is a violation with failing inputs: every further runaway call would only cost its watchdog time
+		b.r.Count("skipped-after-6-timeouts")
+
+		return
+	}
 	b.n++
 	b.total++
 	res := runIsolated(op)
+	if res.answer == "timeout" {
+		b.timeouts++
+	}
 	b.r.Line(op, res.answer)
 	oracle(b.r, op, res, mut)
 	f := strings.Fields(op)
